@@ -199,33 +199,36 @@ example :
 
 /-! ### Multi-pack indices: a rewritten multi-pack index moves to another slot
 
-A multi-pack index is one installation (`Bundle.multi = true`, its index loaded when it is installed) that
-stands for several packs; the protocol core keeps ONE load state for the packs of an installation (which
-pack of the multi-pack index a lookup wants does not matter for whose pack it gets: `load_pack` takes the
-pack number from the id the lookup found, in the installation the slot holds). When the file changes
-(`git multi-pack-index write`, `git repack --write-midx`) `consolidate_with_disk_state` installs the new
-file in ANOTHER slot (`consSetGen k'`, `consSetFiles k' file' true`), publishes, and clears the old slot
-(`consClearGen k`, `consClearFiles k`) — the `index_paths_to_add.iter().any(|t| t.2.is_some())` half of the
-"needs a new generation" condition. All theorems above quantify over every such schedule; the following
+A multi-pack index is ONE installation (`Bundle.multi = true`, its index loaded when it is installed) that
+stands for several packs: `Ev.consSetFilesM k file extra` installs one for `extra + 1` packs, each with its
+own load state (`Bundle.packAt`); a snapshot keeps it as one entry per pack (`Entry.pk`, `entriesOf`), and
+`load_pack` (`lp1`…`lp5` on such an entry) reads and loads pack `pk` of whatever installation the slot holds
+(a number that installation does not have: `None`). When the file changes (`git multi-pack-index write`,
+`git repack --write-midx`) `consolidate_with_disk_state` installs the new file in ANOTHER slot
+(`consSetGen k'`, `consSetFilesM k' file' extra'`), publishes, and clears the old slot (`consClearGen k`,
+`consClearFiles k`) — the `index_paths_to_add.iter().any(|t| t.2.is_some())` half of the "needs a new
+generation" condition. All theorems above (`no_wrong_content`, `load_pack_never_panics`, …) quantify over
+every schedule of these events, for any number of packs per multi-pack index; the following
 ones spell the case out. -/
 
-/-- a multi-pack index (file 20) in slot 0, two handles; handle 0 has it in its snapshot, no pack loaded -/
+/-- a multi-pack index (file 20, two packs) in slot 0, two handles; handle 0 has it in its snapshot (entry 0:
+pack 0, entry 1: pack 1), no pack loaded -/
 def midxSetup : List Ev :=
   [Ev.envAdd 20 [1, 2, 3, 4], Ev.newHandle, Ev.newHandle,
-   Ev.consBegin 1, Ev.consSetGen 0, Ev.consSetFiles 0 20 true, Ev.consPublish [0] false, Ev.consEnd,
+   Ev.consBegin 1, Ev.consSetGen 0, Ev.consSetFilesM 0 20 1, Ev.consPublish [0] false, Ev.consEnd,
    Ev.collBegin 0, Ev.collSlot 0, Ev.collEnd 0]
 
 /-- ONLY the multi-pack index is rewritten (file 21 replaces file 20; no other index the store knows goes
 away): it is installed in slot 1, slot 0 is cleared — `bump` says whether a new generation is published -/
 def midxRewrite (bump : Bool) : List Ev :=
   [Ev.envAdd 21 [1, 2, 3, 4, 5], Ev.envRemove 20,
-   Ev.consBegin 1, Ev.consSetGen 1, Ev.consSetFiles 1 21 true, Ev.consPublish [1] bump,
+   Ev.consBegin 1, Ev.consSetGen 1, Ev.consSetFilesM 1 21 2, Ev.consPublish [1] bump,
    Ev.consClearGen 0, Ev.consClearFiles 0, Ev.consEnd]
 
 /-- rewritten once more: file 22 wraps around into slot 0 -/
 def midxRewriteAgain (bump : Bool) : List Ev :=
   [Ev.envAdd 22 [1, 2, 3, 4, 5, 6], Ev.envRemove 21,
-   Ev.consBegin 1, Ev.consSetGen 0, Ev.consSetFiles 0 22 true, Ev.consPublish [0] bump,
+   Ev.consBegin 1, Ev.consSetGen 0, Ev.consSetFilesM 0 22 1, Ev.consPublish [0] bump,
    Ev.consClearGen 1, Ev.consClearFiles 1, Ev.consEnd]
 
 /-- Whatever the reason a slot is cleared for — the index file is gone, or it is the old place of a
@@ -256,7 +259,7 @@ stale handle — it has the multi-pack index in its snapshot, the pack not loade
 checks on the emptied slot and hits `unreachable!()` (harness: corpus (g), `find` of handle 0). -/
 theorem midx_move_needs_new_generation_panic :
     (run (Sys.init { bumpOnClear := false, recheck := true } 2)
-      (midxSetup ++ midxRewrite false ++ [Ev.lp1 0 0, Ev.lp2 0, Ev.lp3 0, Ev.lp4 0])).map (·.panicked)
+      (midxSetup ++ midxRewrite false ++ [Ev.lp1 0 1, Ev.lp2 0, Ev.lp3 0, Ev.lp4 0])).map (·.panicked)
     = some true := by decide
 
 /-- …and once the next rewrite has put another multi-pack index into that slot, it is handed a pack of
@@ -264,7 +267,7 @@ file 22 for an object it found in file 20 (harness: corpus (g), `find` of handle
 content). -/
 theorem midx_move_needs_new_generation_wrong_content :
     (run (Sys.init { bumpOnClear := false, recheck := true } 2)
-      (midxSetup ++ midxRewrite false ++ midxRewriteAgain false ++ [Ev.lp1 0 0, Ev.lp2 0, Ev.lp3 0, Ev.lp5 0])).map
+      (midxSetup ++ midxRewrite false ++ midxRewriteAgain false ++ [Ev.lp1 0 1, Ev.lp2 0, Ev.lp3 0, Ev.lp5 0])).map
       (fun s => s.rets.map fun r => (r.want.file, r.got.file))
     = some [(20, 22)] := by decide
 
@@ -272,9 +275,19 @@ theorem midx_move_needs_new_generation_wrong_content :
 lookup refreshes its snapshot -/
 example :
     (run (Sys.init Cfg.fixed 2)
-      (midxSetup ++ midxRewrite true ++ midxRewriteAgain true ++ [Ev.lp1 0 0])).map
+      (midxSetup ++ midxRewrite true ++ midxRewriteAgain true ++ [Ev.lp1 0 1])).map
       (fun s => (s.panicked, s.rets.length, decide ((s.handles 0).pc = RPc.idle)))
     = some (false, 0, true) := by decide
+
+/-- the snapshot of handle 0 after `midxSetup`: one entry per pack of the multi-pack index -/
+example : (run (Sys.init Cfg.fixed 2) midxSetup).map (fun s => (s.handles 0).entries.map fun e => (e.slot, e.id.file, e.multi, e.pk))
+    = some [(0, 20, true, 0), (0, 20, true, 1)] := by decide
+
+/-- without any rewrite the packs of the multi-pack index are loaded one by one, each for its own entry -/
+example : (run (Sys.init Cfg.fixed 2)
+      (midxSetup ++ [Ev.lp1 0 1, Ev.lp2 0, Ev.lp3 0, Ev.lp5 0])).map
+      (fun s => (s.rets.map (fun r => (r.want.file, r.got.file)), ((s.slots 0).files.map fun b => (b.packAt 0, b.packAt 1))))
+    = some ([(20, 20)], some (LoadSt.unloaded, LoadSt.loaded)) := by decide
 
 /-! ### Liveness on the scenario model (stated, not proved) -/
 
